@@ -56,7 +56,7 @@ _lg.propagate = False
 from verif.oracles import kepler_ref as kr  # noqa: E402
 
 from resonaate.dynamics.dynamics_base import Dynamics  # noqa: E402
-from resonaate.dynamics.integration_events.discrete_state_change_event import DiscreteStateChangeEvent  # noqa: E402
+from resonaate.dynamics.integration_events.scheduled_impulse import ScheduledImpulse  # noqa: E402
 from resonaate.dynamics.special_perturbations import SpecialPerturbations  # noqa: E402
 from resonaate.dynamics.two_body import TwoBody  # noqa: E402
 from resonaate.physics.bodies import Earth  # noqa: E402
@@ -96,6 +96,7 @@ RTOL = 1e-10  # Dynamics.RELATIVE_TOL the tolerances were calibrated for (checke
 ATOL = 1e-12
 MU = kr.MU_EARTH
 CHI_ATOL = 1.48e-8
+DENSE_FACTOR = 3.0
 
 AE = [(6800.0, 0.0), (7500.0, 0.1), (12000.0, 0.4), (26560.0, 0.7), (42164.0, 0.0), (60000.0, 0.3)]
 INC = [0.0, 28.5, 90.0, 150.0, 180.0]
@@ -200,7 +201,7 @@ def items(tier, seed):
     for method in METHODS:
         for T, idxs in long_sets.items():
             order = _rot(idxs, seed)
-            for ch in _chunks(order, [2] * 50):
+            for ch in _chunks(order, [2] * 50 if thorough or T < 86400.0 else [2, 1, 1]):
                 out.append(["prop", "twobody", method, T, 0.0, 0.0, "lean", [_orbit(i, seed) for i in ch]])
     # ---- special perturbations
     jd0 = _jd0(seed)
@@ -215,12 +216,15 @@ def items(tier, seed):
                     plan = [(10.0, _sp_orbits(seed, 13), [3, 3, 3, 2, 2], 86400.0), (300.0, _sp_orbits(seed, 13), [13], 87000.0),
                             (3600.0, _sp_orbits(seed, 6), [2, 2, 1, 1], 90000.0)]
             else:
-                plan = [(10.0, _sp_orbits(seed, 13), [3, 3, 3, 2, 2], 86400.0), (300.0, _sp_orbits(seed, 13), [7, 6], 87000.0),
+                plan = [(10.0, _sp_orbits(seed, 13), [3, 3, 3, 2, 2], 86400.0), (300.0, _sp_orbits(seed, 13), [5, 4, 4], 87000.0),
                         (3600.0, _sp_orbits(seed, 6), [2, 1, 1, 1, 1], 90000.0)]
             for T, idxs, pattern, t0 in plan:
                 order = _rot(list(idxs), seed)
+                if not thorough and T >= 3600.0 and method == "RK45":
+                    order, pattern = order[:4], [2, 1, 1]  # an SP hour costs 0.35 s with RK45 (0.13 s with DOP853)
+                mode = "sp" if (thorough or T < 3600.0) else "sp_lean"
                 for ch in _chunks(order, pattern):
-                    out.append(["prop", cfg, method, T, t0, jd0, "sp", [_orbit(i, seed) for i in ch]])
+                    out.append(["prop", cfg, method, T, t0, jd0, mode, [_orbit(i, seed) for i in ch]])
     # ---- closed-form solver and helpers
     for ch in fw.chunked(all_idx, 15):
         out.append(["universal", [_orbit(i, seed) for i in ch]])
@@ -239,7 +243,7 @@ def _cost(it):
     per = {"RK45": 2.8e-6, "DOP853": 1.0e-6}[method] * T + 1e-3
     if kind != "twobody":
         per = {"RK45": 9e-5, "DOP853": 3.5e-5}[method] * T + 0.03
-    units = {"full": 23, "lean": 9, "sp": 15, "batch_only": 6}[mode]
+    units = {"full": 23, "lean": 9, "sp": 15, "sp_lean": 10, "batch_only": 6}[mode]
     return per * units * len(orbs)
 
 
@@ -274,27 +278,30 @@ def tol_vel(a, e, T):
 
 
 def tol_conserve(a, T):
-    return 1e-12 + 30.0 * RTOL * (1.0 + 2.0 * T / _period(a))
+    return 1e-12 + 300.0 * RTOL * (1.0 + 2.0 * T / _period(a))
 
 
 def tol_epoch(a, e, T):
-    return tol_pos(a, e, T) / 10.0
+    return tol_pos(a, e, T) / 5.0
 
 
-class _RestartEvent(DiscreteStateChangeEvent):
-    """Stops the integrator at ``time`` and adds a constant vector to the state (test double, no EventStack)."""
+class _RestartEvent(ScheduledImpulse):
+    """The library's scheduled-impulse event function (``ScheduledImpulse.__call__``) with a constant velocity change and
+    without the EventStack side effect of the concrete classes: stops the integrator at ``time`` and forces a restart."""
 
     def __init__(self, time, delta):
-        self.time = float(time)
-        self.delta = np.asarray(delta, dtype=float)
+        super().__init__(float(time), np.asarray(delta, dtype=float)[3:], 0)
         self.calls = 0
-
-    def __call__(self, time, state):
-        return time - self.time
 
     def getStateChange(self, time, state):
         self.calls += 1
-        return self.delta.copy()
+        return self.thrust.copy()
+
+    @property
+    def suffix(self):
+        """Root-cause tag: a comparison that fails while the event fired more (or less) than once is a different
+        defect (event handling) from one that fails although the event fired exactly once (restart bookkeeping)."""
+        return "" if self.calls == 1 else ("/event_retriggered" if self.calls > 1 else "/event_not_applied")
 
 
 def _dynamics(kind, method, jd):
@@ -315,6 +322,7 @@ class _Ctx:
 
     def __init__(self, res, item, kind, method, T, t0):
         self.res, self.item, self.kind, self.method, self.T, self.t0 = res, item, kind, method, T, t0
+        self.mode = item[6]
         self.ratios = {}
 
     def base(self, orb, **kw):
@@ -331,6 +339,10 @@ class _Ctx:
         """got must have the announced shape and agree with ref within (tp km, tv km/s)."""
         case = self.base(orb, **(extra or {}))
         sig = f"C03/{sub}/{self.kind}/{self.method}/{detail}"
+        if sub in ("grid", "restart_bulk"):
+            # propagateBulk returns the dense-output interpolant between step ends (4th order for RK45, 7th for DOP853),
+            # whose error is not what rtol controls; measured <= 3x the step-end error on the thorough lattice
+            tp, tv = DENSE_FACTOR * tp, DENSE_FACTOR * tv
         if isinstance(got, Exception):
             return self.res.case(sub, case, False, nontrivial=nontrivial, signature=f"{sig}/exception/{type(got).__name__}",
                                  observed=repr(got)[:200], expected="a state", item=self.item)
@@ -388,13 +400,13 @@ def _run_prop(res, item):
     dyn = _dynamics(kind, method, jd)
     t2 = t0 + T
     two_body = kind == "twobody"
-    fracs = {"full": FRACS_FULL, "lean": FRACS_LEAN, "sp": FRACS_LEAN, "batch_only": []}[mode]
+    fracs = {"full": FRACS_FULL, "lean": FRACS_LEAN, "sp": FRACS_LEAN, "sp_lean": [0.37], "batch_only": []}[mode]
     if T > 2.0:
         edges = [1.0 / T, 1.0 - 1.0 / T, 1.0]
     else:
         edges = [0.25, 0.75, 1.0]
     grids = {"full": {"grid1": [1.0], "grid3": GRID3, "grid10": GRID10, "edges": edges}, "lean": {"grid3": GRID3, "edges": edges},
-             "sp": {"grid3": GRID3, "edges": edges}, "batch_only": {}}[mode]
+             "sp": {"grid3": GRID3, "edges": edges}, "sp_lean": {"grid3": GRID3}, "batch_only": {}}[mode]
     K = len(orbs)
     x0s = [_state(o) for o in orbs]
     wholes, seps = [], []
@@ -457,16 +469,18 @@ def _run_prop(res, item):
         if mid is not None and not _bad(mid):
             ev0 = _RestartEvent(t1, np.zeros(6))
             got = _call(dyn.propagate, t0, t2, x0, scheduled_events=[ev0])
-            ctx.compare("restart", orb, got, whole, tp, tv, nontrivial=True, detail="null_event", extra={"frac": f, "dv": 0})
-            res.case("restart_once", ctx.base(orb, frac=f), ev0.calls == 1, nontrivial=True,
-                     signature=f"C03/restart/{kind}/{method}/event_applied_{ev0.calls}_times", observed=ev0.calls, expected=1, item=item)
+            ctx.compare("restart", orb, got, whole, tp, tv, nontrivial=True, detail="null_event" + ev0.suffix, extra={"frac": f, "dv": 0})
+            res.case("restart_once", ctx.base(orb, frac=f, event_time=t1), ev0.calls == 1, nontrivial=True,
+                     signature=f"C03/restart/{kind}/{method}/fired_once{ev0.suffix}", observed={"fired": ev0.calls}, expected={"fired": 1},
+                     outcome=f"fired={min(ev0.calls, 3)}", item=item)
             if mode in ("full", "sp"):
                 delta = np.concatenate((np.zeros(3), RESTART_DV))
                 ev1 = _RestartEvent(t1, delta)
                 got = _call(dyn.propagate, t0, t2, x0, scheduled_events=[ev1])
                 want = _call(dyn.propagate, t1, t2, mid + delta)
                 if not _bad(want):
-                    ctx.compare("restart", orb, got, want, tp, tv, nontrivial=True, detail="state_change", extra={"frac": f, "dv": 1})
+                    ctx.compare("restart", orb, got, want, tp, tv, nontrivial=True, detail="state_change" + ev1.suffix,
+                                extra={"frac": f, "dv": 1, "event_time": t1, "fired": ev1.calls})
         # -- SP: only absolute epoch + state matter
         if not two_body:
             _epoch(ctx, orb, x0, whole, jd)
@@ -517,7 +531,7 @@ def _run_prop(res, item):
         ev = _RestartEvent(t1, delta)
         got = _call(dyn.propagate, t0, t2, X.copy(), scheduled_events=[ev])
         if _bad(got) or np.asarray(got).shape != (6, K):
-            ctx.compare("restart", orbs[0], got, x0s[0], 1.0, 1.0, nontrivial=True, detail="batch_layout", extra={"K": K}, shape=(6, K))
+            ctx.compare("restart", orbs[0], got, x0s[0], 1.0, 1.0, nontrivial=True, detail="batch_layout" + ev.suffix, extra={"K": K}, shape=(6, K))
         else:
             for k, orb in enumerate(orbs):
                 a, e = orb[0], orb[1]
@@ -528,22 +542,25 @@ def _run_prop(res, item):
                     continue
                 want = _call(dyn.propagate, t1, t2, mid + delta)
                 if not _bad(want):
-                    ctx.compare("restart", orb, got[:, k], want, tol_pos(a, e, T), tol_vel(a, e, T), nontrivial=True, detail="batch_state_change",
-                                extra={"K": K, "col": k, "frac": f})
-    if mode in ("full", "lean", "sp") and K > 1:
+                    ctx.compare("restart", orb, got[:, k], want, tol_pos(a, e, T), tol_vel(a, e, T), nontrivial=True,
+                                detail="batch_state_change" + ev.suffix, extra={"K": K, "col": k, "frac": f, "event_time": t1, "fired": ev.calls})
+    if mode in ("full", "lean", "sp", "sp_lean") and K > 1:
         for label, f in (("inside_interval", 0.5), ("on_grid_time", GRID3[0])):
             ev = _RestartEvent(t0 + f * T, np.zeros(6))
             out = _call(dyn.propagateBulk, times, X.copy(), scheduled_events=[ev])
             if _bad(out) or np.asarray(out).shape != (6, K, len(gf)):
-                ctx.compare("restart_bulk", orbs[0], out, x0s[0], 1.0, 1.0, nontrivial=True, detail=f"layout/{label}", extra={"K": K},
-                            shape=(6, K, len(gf)))
+                # root cause attribution: propagate() takes the same steps (t_eval does not influence them) and counts the firings
+                twin = _RestartEvent(t0 + f * T, np.zeros(6))
+                _call(dyn.propagate, t0, t2, X.copy(), scheduled_events=[twin])
+                ctx.compare("restart_bulk", orbs[0], out, x0s[0], 1.0, 1.0, nontrivial=True, detail=f"layout/{label}{twin.suffix}",
+                            extra={"K": K, "event_time": t0 + f * T, "fired": twin.calls}, shape=(6, K, len(gf)))
                 continue
             for k, orb in enumerate(orbs):
                 a, e = orb[0], orb[1]
                 for j, fj in enumerate(gf):
                     if fj in seps[k] and not _bad(seps[k][fj]):
                         ctx.compare("restart_bulk", orb, out[:, k, j], seps[k][fj], tol_pos(a, e, T), tol_vel(a, e, T), nontrivial=True,
-                                    detail=label, extra={"K": K, "col": k, "j": j, "event_frac": f})
+                                    detail=label + ev.suffix, extra={"K": K, "col": k, "j": j, "event_frac": f})
     return ctx
 
 
@@ -566,11 +583,11 @@ def _conserve(ctx, orb, x0, x1, nontrivial, where):
 def _epoch(ctx, orb, x0, whole, jd):
     T, t0 = ctx.T, ctx.t0
     tp = tol_epoch(orb[0], orb[1], T)
-    tv = tol_vel(orb[0], orb[1], T) / 10.0
+    tv = tol_vel(orb[0], orb[1], T) / 5.0
     # measured sensitivity: the same call with the epoch moved by 1000 s and t NOT compensated
     wit = _call(_dynamics(ctx.kind, ctx.method, jd + 1000.0 / 86400.0).propagate, t0, t0 + T, x0)
     sens = 0.0 if _bad(wit) else fw.maxabs(wit[:3], whole[:3])
-    for d in EPOCH_SHIFTS:
+    for d in (EPOCH_SHIFTS if ctx.mode != "sp_lean" else [1000.0, 86400.0]):
         if t0 - d < 0.0:
             continue  # elapsed scenario seconds are non-negative in the property's domain (SP items start at t0 >= 86400 s)
         dyn2 = _dynamics(ctx.kind, ctx.method, jd + d / 86400.0)
@@ -843,6 +860,12 @@ def finalize(tier, seed, results):
     out.extra["worst_error_over_tolerance"] = {k: {"ratio": round(v, 5), "at": where[k]} for k, v in sorted(worst.items())}
     if os.environ.get("VERIF_C03_CALIB"):
         print(f"  calib cpu total {sum(cpu):.1f} s, longest item {max(cpu):.1f} s", flush=True)
+        groups = {}
+        for r in results:
+            g = getattr(r, "ratio_group", "other")
+            groups.setdefault(g, []).append(getattr(r, "cpu_s", 0.0))
+        for g, v in sorted(groups.items(), key=lambda kv: -sum(kv[1]))[:14]:
+            print(f"  calib cpu {g}: items {len(v)} total {sum(v):.1f} max {max(v):.1f}", flush=True)
         for k, v in sorted(worst.items()):
             print(f"  calib {k}: worst err/tol = {v:.4g} at {where[k]}", flush=True)
     return out
